@@ -150,6 +150,9 @@ func rpcRun(rng *rand.Rand, res *hx.Result, runNo int) ([]Event, *rpcRunStats, e
 	stopMid := rng.Intn(2) == 0
 	closed := make(chan struct{})
 	var closeStart time.Time
+	second := rng.Intn(2) == 0 // a second Close overlaps the first
+	secondDelay := time.Duration(rng.Intn(4000)) * time.Microsecond
+	closed2 := make(chan struct{})
 	doClose := func() {
 		rec.emit(Event{Op: "StopCall", Fam: "rpc"})
 		closeStart = time.Now()
@@ -158,6 +161,17 @@ func rpcRun(rng *rand.Rand, res *hx.Result, runNo int) ([]Event, *rpcRunStats, e
 			rec.emit(Event{Op: "StopReturn"})
 			close(closed)
 		}()
+		if second {
+			go func() {
+				time.Sleep(secondDelay)
+				rec.emit(Event{Op: "Stop2Call"})
+				nd.s.Close()
+				rec.emit(Event{Op: "Stop2Return"})
+				close(closed2)
+			}()
+		} else {
+			close(closed2)
+		}
 	}
 	stopped := false
 	for b := 0; b < nbursts; b++ {
@@ -236,6 +250,12 @@ func rpcRun(rng *rand.Rand, res *hx.Result, runNo int) ([]Event, *rpcRunStats, e
 			clients[p].close()
 		}
 		<-closed
+	}
+	select {
+	case <-closed2:
+	case <-time.After(closeDeadline):
+		res.Mismatch("driver:rpc:second-close-hangs", fmt.Sprintf("run %d: a second, overlapping Syncer.Close did not return within %v", runNo, closeDeadline), nil)
+		<-closed2
 	}
 	res.Count("close_us", int(time.Since(closeStart).Microseconds()))
 	// work after Close: an RPC on a surviving transport must be refused
@@ -551,15 +571,18 @@ func tgRandomRun(rng *rand.Rand, kind string, res *hx.Result, runNo int) ([]Even
 			wg.Add(1)
 			go func(k int) {
 				defer wg.Done()
+				// both Stops must wait: nobody may be live when EITHER returns
 				if k == 0 {
 					rec.emit(Event{Op: "StopCall"})
+				} else {
+					time.Sleep(time.Duration(300*k) * time.Microsecond)
+					rec.emit(Event{Op: "Stop2Call"})
 				}
 				tg.Stop()
 				if k == 0 {
 					rec.emit(Event{Op: "StopReturn"})
 				} else {
-					// a second Stop must also wait: nobody may be live when it returns (checked by the
-					// first one's StopReturn line; here only that it returns)
+					rec.emit(Event{Op: "Stop2Return"})
 				}
 			}(k)
 		}
@@ -616,6 +639,19 @@ func tgRandomRun(rng *rand.Rand, kind string, res *hx.Result, runNo int) ([]Even
 		time.Sleep(time.Duration(rng.Intn(10)) * time.Millisecond)
 		rec.emit(Event{Op: "StopCall"})
 		go func() { r.srv.Close(); rec.emit(Event{Op: "StopReturn"}); close(closed) }()
+		closed2 := make(chan struct{})
+		if rng.Intn(2) == 0 {
+			d := time.Duration(rng.Intn(3000)) * time.Microsecond
+			go func() {
+				time.Sleep(d)
+				rec.emit(Event{Op: "Stop2Call"})
+				r.srv.Close()
+				rec.emit(Event{Op: "Stop2Return"})
+				close(closed2)
+			}()
+		} else {
+			close(closed2)
+		}
 		wg.Wait()
 		// release whatever is still gated
 		for i := 0; i < r.gs.numEntries(); i++ {
@@ -626,6 +662,12 @@ func tgRandomRun(rng *rand.Rand, kind string, res *hx.Result, runNo int) ([]Even
 		case <-time.After(closeDeadline):
 			res.Mismatch("driver:rhp4:close-hangs", fmt.Sprintf("rhp4 run %d: Server.Close did not return", runNo), nil)
 			return nil, fmt.Errorf("close hangs")
+		}
+		select {
+		case <-closed2:
+		case <-time.After(closeDeadline):
+			res.Mismatch("driver:rhp4:second-close-hangs", fmt.Sprintf("rhp4 run %d: a second Server.Close did not return", runNo), nil)
+			return nil, fmt.Errorf("second close hangs")
 		}
 		// work after Close: a new stream must be answered with "host is shutting down"
 		s, err := r.net.DialStream(context.Background())
